@@ -425,7 +425,7 @@ def _jobs_for(prop, tier):
     if prop == 'C01':
         return jobs_c01(tier) + jobs_carry(tier) + jobs_numpy_getitem(tier) + jobs_option_getitem(tier) + jobs_ellipsis(tier) + jobs_missing(tier) + jobs_advanced(tier) + jobs_getitem_entry(tier)
     if prop == 'C05':
-        return jobs_c05(tier) + [j for j in jobs_option_below(tier) if j[1][3] in ('num', 'localindex')] + jobs_flatten(tier) + jobs_axis0(tier, 'localindex') + jobs_record_below(tier, ('num', 'localindex')) + jobs_axis_through_record(tier, ('num', 'localindex'))
+        return jobs_c05(tier) + [j for j in jobs_option_below(tier) if j[1][3] in ('num', 'localindex')] + jobs_flatten(tier) + jobs_axis0(tier, 'localindex') + jobs_record_below(tier, ('num', 'localindex')) + jobs_axis_through_record(tier, ('num', 'localindex')) + [(h_union_flatten, (), 1800)]
     if prop == 'C09':
         return jobs_c09(tier) + [j for j in jobs_option_below(tier) if j[1][3] in ('rpad', 'rpad_and_clip')] + jobs_simplify(tier) + jobs_fillna(tier) + jobs_bytemask(tier) + jobs_record_below(tier, ('rpad', 'rpad_and_clip')) + jobs_axis_through_record(tier, ('rpad', 'rpad_and_clip'))
     if prop == 'C11':
@@ -5688,3 +5688,64 @@ def h_axis_through_union(meth):
         return akrun_check(prog, exp, '%s(axis=-1) of [[[1, 2], [[4, 5], [6]]], [[3]]] (union of lists and lists of lists)' % meth)
     return mdischarge(nc.m, 'list[union[list, list[list]]]::%s axis=-1' % meth, obls, [], replay=replay, prefer=[lenA <= 8, lenB <= 8],
                       extra=dict(bounds='one fixed shape: outer lists (2, 1), union tags (0, 1, 0), contents with lists (2, 1) and (2,); origins and leaf lengths symbolic'))
+
+
+# ------------------------------------------------------------------------------------------------ C05 / C11: flatten through a union of lists
+@guard
+def h_union_flatten():
+    """UnionArray8_64::offsets_and_flattened(axis=1) of a union of two list contents, one of which holds union-type elements itself: the lists
+    shown by the union are concatenated in the order of the union's entries (offsets one per entry), every element keeps its identity - and the
+    flattened content is a valid array: no union directly inside a union"""
+    nc = NodeCtx(['UNI', 'LOA', 'IA', 'IDX', 'CNT', 'UTL', 'KD', 'IDS', 'EA'], [], unwind=30)
+    BASE = 1 << 32
+    kk = z3.BitVec('k!', 64)
+    lenA, lenB, lenC = nc.lencontent, nc.m.bv('lencontentB'), nc.m.bv('lencontentC')
+    pA = nc.content0
+    nc.m.assume(lenA >= 2, lenA <= 2 ** 20, lenB >= 1, lenB <= 2 ** 20, lenC >= 1, lenC <= 2 ** 20)
+    pB = nc.new_content_in(nc.m.mem, 'content_B', lenB, z3.Lambda([kk], kk + BASE), const=True)
+    pC = nc.new_content_in(nc.m.mem, 'content_C', lenC, z3.Lambda([kk], kk + 2 * BASE), const=True)
+    # three unrelated element types: nothing merges
+    nc.m.eng.stubs['vf$slot%d' % nc.slot('9mergeableERKSt10shared_ptr')] = lambda eng, fr, ins, st, name, argv: z3.BitVecVal(0, 1)
+    nc.m.eng.stubs['vf$slot%d' % nc.slot('14purelist_depthEv')] = lambda eng, fr, ins, st, name, argv: BV(1)
+    nc.m.eng.stubs['vf$slot%d' % nc.slot('12minmax_depthEv')] = lambda eng, fr, ins, st, name, argv: [BV(1), BV(1)]
+    nc.m.eng.stubs['vf$slot%d' % nc.slot('12branch_depthEv')] = lambda eng, fr, ins, st, name, argv: [z3.BitVecVal(0, 8), BV(1)]
+    nc.m.eng.stubs.update(string_stubs(nc))
+    inner, iidx = build_union8_64(nc, (0, 1, 0), [pA, pB], 'inner', [lenA, lenB])
+    for t, v in zip(iidx, (0, 0, 1)):
+        nc.m.assume(t == v)
+    nc.content0, nc.lencontent = inner, BV(3)
+    l1, lists1, offs1 = build_listoffset64(nc, [2, 1], name='list1')
+    nc.content0, nc.lencontent = pC, lenC
+    l2, lists2, offs2 = build_listoffset64(nc, [1], name='list2')
+    nc.content0, nc.lencontent = pA, lenA
+    outer, oidx = build_union8_64(nc, (0, 1, 0), [l1, l2], 'node', [BV(2), BV(1)])
+    for t, v in zip(oidx, (0, 0, 1)):
+        nc.m.assume(t == v)
+    nc.m.record('ret', {})
+    out = nc.m.call('_ZNK7awkward12UnionArrayOfIalE21offsets_and_flattenedEll', [Ptr('ret', 0), outer, BV(1), BV(0)])
+    obls = [('offsets_and_flattened does not raise', out.raised)]
+    offs, _ = nc.index_terms(out.mem, Ptr('ret', 0), 'returned offsets')
+    want_offs = [0, 2, 3, 4]
+    if len(offs) != 4:
+        obls.append(('one offset per entry of the union (and one more)', z3.BoolVal(True)))
+    else:
+        for i, (a, w) in enumerate(zip(offs, want_offs)):
+            obls.append(('offsets[%d] = number of elements of the lists before entry %d' % (i, i), a != w))
+    c_elem = lists2[0][0].val + 2 * BASE
+    want = [Elem(BV(0)), Elem(BV(0) + BASE), Elem(c_elem), Elem(BV(1))]
+    for g, res in nodeh.decode_cases(nc, out.mem, nc.m.cell('ret', 56)):
+        if res is None:
+            obls.append(('a result is returned', z3.And(g, z3.Not(out.raised))))
+        else:
+            obls += [(nm, z3.And(g, c)) for nm, c in nodeh.compare_value(res, want, strict=True)]
+
+    def replay(model, ent):
+        # A = [1, 2] (integers), B = [true] (booleans do not merge with integers here), C = lists: [[7]] ; inner = [1, true, 2]
+        prog = ('i64 2 1 2 bool 1 1 union8_64 3 0 1 0 0 0 1 2 listoffset64 3 0 2 3 '
+                'i64 1 7 listoffset64 2 0 1 listoffset64 2 0 1 union8_64 3 0 1 0 0 0 1 2 flatten 1')
+        got = fullnative.akrun(prog + ' validity')
+        if got != ('OK', ''):
+            return True, 'flatten(axis=1) of a union of [[1, true], [2]] and [[[7]]]: the answer is not a valid array: %s' % str(got)[:300], dict(program=prog)
+        return akrun_check(prog, [1, True, [7], 2], 'flatten(axis=1) of a union of lists [[1, true], [2]] (union-type elements) and [[[7]]]')
+    return mdischarge(nc.m, 'UnionArray8_64::offsets_and_flattened over a list of union-type elements', obls, [], replay=replay, prefer=[lenA <= 8, lenB <= 8, lenC <= 8],
+                      extra=dict(bounds='one fixed shape: union entries (list1[0], list2[0], list1[1]); list1 = lists (2, 1) over a union of two opaque contents; list2 = one list over a third; origins and content lengths symbolic'))
